@@ -35,6 +35,14 @@ CORE = [
 ]
 
 
+def _leaves(depth, tier):
+    return cat.QUICK2_LEAVES if (tier == "quick" and depth >= 2) else None
+
+
+def _tier_of(case):
+    return "thorough" if "thorough" in case else "quick"
+
+
 def cases(tier, seed):
     out = []
     plan = [(0, None, "all"), (1, None, "all"), (2, None, "cold" if tier == "quick" else "same")]
@@ -42,10 +50,10 @@ def cases(tier, seed):
         plan.append((2, CORE, "all"))
         plan.append((3, CORE[:12], "cold"))
     for depth, ctxs, warm in plan:
-        n = sum(1 for _ in cat.catalogue(depth, None, ctxs))
+        n = sum(1 for _ in cat.catalogue(depth, _leaves(depth, tier), ctxs))
         step = 10 if (warm == "all" and depth >= 1) else 40
         for a in range(0, n, step):
-            out.append(("batch", depth, ctxs, a, min(n, a + step), warm))
+            out.append(("batch", depth, ctxs, a, min(n, a + step), warm, tier))
     return out
 
 
@@ -155,8 +163,8 @@ def run_case(case):
         _, label, term, dicts, warm = case
         res["failures"] = check_term(label, term, dicts, warm, res)
         return res
-    _, depth, ctxs, a, b, warm = case
-    for label, term, spec in itertools.islice(cat.catalogue(depth, None, ctxs), a, b):
+    _, depth, ctxs, a, b, warm = case[:6]
+    for label, term, spec in itertools.islice(cat.catalogue(depth, _leaves(depth, _tier_of(case)), ctxs), a, b):
         dicts = cat.dictionaries(spec)
         res["terms"] += 1
         res["failures"].extend(check_term(label, term, dicts, warm, res, faults_pass=(depth <= 1 or warm == "all")))
